@@ -143,14 +143,14 @@ def main():
         m = re.search(pat, body)
         return m.start() if m else -1
     p_pre = pos(start_body, r"run_with_signal\(pre_start\)")
-    p_link = pos(start_body, r"try_link\(")
+    p_link = pos(start_body, r"try_link(?:_starting)?\(")
     p_mark = pos(start_body, r"lifecycle\.mark_running\(\)")
     p_spawn = pos(start_body, r"spawn_named\(")
     send_start_order_ok = (0 <= p_pre < p_link < p_mark < p_spawn)
     send_start_awaits = len(re.findall(r"\.await", start_body.split("spawn_named(")[0])) if start_body else -1
     inner_src = strip_comments(read(repo, "ractor/src/thread_local/inner.rs"))
     lstart = fn_body(inner_src, "start") or ""
-    l_link = pos(lstart, r"try_link\(")
+    l_link = pos(lstart, r"try_link(?:_starting)?\(")
     l_pre = pos(lstart, r"run_with_signal\(pre_start\)")
     l_mark = pos(lstart, r"lifecycle\.mark_running\(\)")
     local_start_order_ok = (0 <= l_link < l_pre < l_mark)
